@@ -535,8 +535,11 @@ func (vc *VC) callByContract(st *State, spec *FuncSpec, callee *types.Func, sig 
 	pre := st.clone()
 	env := &SpecEnv{vc: vc, st: st, old: pre, vars: vars, pkg: cpkg, allocOld: pre.alloc}
 	for _, r := range spec.Requires {
+		if !vc.wanted(r.Props) {
+			continue
+		}
 		g := env.evalBool(r.Expr)
-		vc.oblige(st, "pre@"+spec.Key, r.Text, vc.pos(call), g, nil)
+		vc.oblige(st, "pre@"+spec.Key, r.Text, vc.pos(call), g, r.Props)
 	}
 	// frame
 	if !spec.Pure {
@@ -636,9 +639,15 @@ func (vc *VC) callByContract(st *State, spec *FuncSpec, callee *types.Func, sig 
 	}
 	post = post.with(rv)
 	for _, e := range spec.Ensures {
+		if !vc.wanted(e.Props) {
+			continue
+		}
 		st.assume(post.evalBool(e.Expr))
 	}
 	for _, e := range spec.Promises {
+		if !vc.wanted(e.Props) {
+			continue
+		}
 		st.assume(post.evalBool(e.Expr))
 		vc.note("trusted (not proved) clause of " + spec.Key + ": " + e.Text)
 	}
@@ -797,6 +806,19 @@ func (vc *VC) evalWriteTarget(env *SpecEnv, e ast.Expr, text string, add func(h,
 					vc.heapGet(env.st, hn, hs, nil)
 					addCond(hn, "true")
 				}
+				return
+			}
+			if id, ok := ce.Fun.(*ast.Ident); ok && id.Name == "anymap" && len(ce.Args) == 2 {
+				// anymap(K, V): the contents of any map with these Go key and value types
+				kt, _ := vc.resolveType(ce.Args[0], env.pkg)
+				vt, _ := vc.resolveType(ce.Args[1], env.pkg)
+				mi := vc.mapInfo(types.NewMap(kt, vt))
+				vc.mapDom(env.st, mi, "0")
+				vc.mapVal(env.st, mi, "0")
+				vc.mapCard(env.st, mi, "0")
+				addCond(mi.dn, "true")
+				addCond(mi.vn, "true")
+				addCond(mi.cn, "true")
 				return
 			}
 			if id, ok := ce.Fun.(*ast.Ident); ok && id.Name == "anylock" {
@@ -1223,6 +1245,9 @@ func (vc *VC) lockOp(st *State, callee *types.Func, recvExpr ast.Expr, call *ast
 	if vc.dry == 0 && (callee.Name() == "Unlock" || callee.Name() == "RUnlock") {
 		// monitor invariants: re-established before the lock is released
 		for _, mon := range mons {
+			if !vc.wanted(mon.Props) {
+				continue
+			}
 			vc.oblige(st, "monitor-invariant", "invariant of "+mon.Name+" holds when the lock is released: "+mon.Text, vc.pos(call), monInv(mon), mon.Props)
 		}
 	}
@@ -1230,6 +1255,9 @@ func (vc *VC) lockOp(st *State, callee *types.Func, recvExpr ast.Expr, call *ast
 		if vc.dry == 0 && (callee.Name() == "Lock" || callee.Name() == "RLock") {
 			// ... and may therefore be assumed when it is acquired (all writers of guarded state hold the lock)
 			for _, mon := range mons {
+				if !vc.wanted(mon.Props) {
+					continue
+				}
 				st.assume(monInv(mon))
 				vc.note("monitor invariant of " + mon.Name + " assumed at acquire (proved at every release and by the constructor; guarded state is only written under the lock)")
 			}
